@@ -90,8 +90,6 @@ def gram_passes(pid, tier):
     if pid == 'C05':
         P.append(('operator grammars NT1 T3 R<=3, all precedence/associativity assignments', base + ['--nt', '1', '--t', '3', '--err', '0', '--maxR', '3', '--maxW', '6' if q else '7', '--maxlen', '4' if q else '5', '--prec-levels', '2' if q else '3', '--rprec-max', '2' if q else '3'] + ([] if q else ['--prec-base', '-1'])))
         P.append(('NT2 T2 R<=%d' % (3 if q else 4), base + ['--nt', '2', '--t', '2', '--err', '0', '--maxR', '3' if q else '4', '--maxlen', '4', '--prec-levels', '2' if q else '3', '--rprec-max', '1' if q else '3'] + ([] if q else ['--prec-base', '-1'])))
-        if not q:
-            P.append(('operator grammars NT1 T3 R=4 W 6..8', base + ['--nt', '1', '--t', '3', '--err', '0', '--minR', '4', '--maxlen', '5', '--prec-levels', '3', '--rprec-max', '2']))
     LIFT = 'lifted frames (61 unused terminals and/or 63 unused nonterminals declared in front, so that every symbol index, <eof>, error and the augmented root lie across the 64-bit word boundaries of the item-set and FIRST bitsets; also 125/62 around the 128 boundary): '
     if pid in ('C01', 'C02', 'C09', 'C11', 'C16'):
         P.append((LIFT + 'NT2 T2 R<=%d W<=%d, strings<=4' % (2 if q else 3, 4 if q else 5), base + ['--nt', '2', '--t', '2', '--err', '0', '--maxR', '2' if q else '3', '--maxlen', '4'], 'lift'))
@@ -102,6 +100,8 @@ def gram_passes(pid, tier):
         P.append((LIFT + 'operator grammars NT1 T3 R<=3 W<=%d, all precedence/associativity assignments' % (5 if q else 6), base + ['--nt', '1', '--t', '3', '--err', '0', '--maxR', '3', '--maxW', '5' if q else '6', '--maxlen', '4', '--prec-levels', '2' if q else '3', '--rprec-max', '1' if q else '2'], 'lift'))
     if pid in ('C01', 'C02', 'C05', 'C08', 'C09', 'C11', 'C16'):
         P.append(('realistic seed grammars (JSON, layered expression grammar with calls, 5-operator grammar with declared precedence, statements with error recovery), all one-symbol variants, strings<=3 over 8-11 terminals + every sentence of the seed up to %d tokens and its one-token deletions' % (7 if q else 8), base + ['--maxlen', '3', '--sentences', '7' if q else '8', '--neighbours', '--max-per-frame', '0', '--seeds', os.path.join(VERIF, 'seeds', 'gram_big_seeds.txt')], 'big'))
+    if pid == 'C05' and not q:   # the largest space last: it takes whatever time is left and reports exhaustive=false when cut
+        P.append(('operator grammars NT1 T3 R=4 W 6..8', base + ['--nt', '1', '--t', '3', '--err', '0', '--minR', '4', '--maxlen', '5', '--prec-levels', '3', '--rprec-max', '2']))
     return ('quick' if q else 'thorough'), P
 
 GRAM_RULE = {
